@@ -735,25 +735,33 @@ class Vector():
 
 			# Object dtype accepts any type - skip validation
 			if self._dtype is not None and self._dtype.kind is not object:
-				incompatible = None
+				# Examine EVERY value before anything is promoted or stored:
+				# work out the dtype the column needs, reject the assignment as a
+				# whole if any value cannot be accommodated.
+				target = self._dtype
 				for val in new_values:
+					if val is None:
+						# None is accepted and makes the column nullable
+						target = target.with_nullable(True)
+						continue
 					try:
-						validate_scalar(val, self._dtype)
+						validate_scalar(val, target)
 					except TypeError:
-						incompatible = val
-						break
+						required_dtype = infer_dtype([val])
+						if (target.kind, required_dtype.kind) not in self._PROMOTABLE:
+							raise SerifTypeError(
+								f"Cannot set {required_dtype.kind.__name__} in "
+								f"{self._dtype.kind.__name__} vector. "
+								f"Promotion not supported."
+							)
+						target = DataType(required_dtype.kind, nullable=target.nullable)
 
-				if incompatible is not None:
-					required_dtype = infer_dtype([incompatible])
-					try:
-						self._promote(required_dtype.kind)
-						underlying = self._underlying
-					except SerifTypeError:
-						raise SerifTypeError(
-							f"Cannot set {required_dtype.kind.__name__} in "
-							f"{self._dtype.kind.__name__} vector. "
-							f"Promotion not supported."
-						)
+				if target.kind is not self._dtype.kind:
+					# builds the converted storage first; raises without side effects
+					self._promote(target.kind)
+					underlying = self._underlying
+				if target.nullable and not self._dtype.nullable:
+					self._dtype = self._dtype.with_nullable(True)
 		# =====================================================================
 		# MUTATE — copy-on-write + fingerprint updates
 		# =====================================================================
@@ -1033,6 +1041,11 @@ class Vector():
 	def __rpow__(self, other):
 		return self._elementwise_operation(other, _reverse_pow, '__rpow__', '**')
 
+
+	# (current kind, wider kind) pairs _promote() knows how to convert
+	_PROMOTABLE = frozenset([
+		(int, float), (int, complex), (float, complex), (date, datetime),
+	])
 
 	def _promote(self, new_dtype):
 		""" Check if a vector can change data type (int -> float, float -> complex) """
